@@ -23,8 +23,9 @@ def filt(test, pfs):
     return ("filter", test, tuple(pfs))
 
 
-def pf(name, not_defined=False, text=None, param=None):
-    return ("pf", name, not_defined, text, param)
+def pf(name, not_defined=False, text=None, param=None, test=None):
+    """test: the prop-filter's own test attribute (anyof default / allof) joining its text-match and param-filter"""
+    return ("pf", name, not_defined, text, param, test)
 
 
 def _text_xml(t):
@@ -43,7 +44,7 @@ def to_xml(f):
     _, test, pfs = f
     a = ' test="%s"' % test if test else ""
     inner = ""
-    for (_, name, nd, text, param) in pfs:
+    for (_, name, nd, text, param, ptest) in pfs:
         x = ""
         if nd:
             x += "<C:is-not-defined/>"
@@ -55,7 +56,7 @@ def to_xml(f):
             if pt is not None:
                 y += _text_xml(pt)
             x += "<C:param-filter name=%s>%s</C:param-filter>" % (quoteattr(pn), y)
-        inner += "<C:prop-filter name=%s>%s</C:prop-filter>" % (quoteattr(name), x)
+        inner += "<C:prop-filter name=%s%s>%s</C:prop-filter>" % (quoteattr(name), (' test="%s"' % ptest) if ptest else "", x)
     return "<C:filter%s>%s</C:filter>" % (a, inner)
 
 
@@ -89,26 +90,29 @@ def text_matches(t, value, default_collation):
 
 
 def prop_filter_matches(f, card, default_collation):
-    _, name, nd, text, param = f
+    _, name, nd, text, param, ptest = f
     insts = card.getall(name.upper())
     if nd:
         return not insts
     if not insts:
         return False
     for p in insts:
-        ok = True
-        if text is not None and not text_matches(text, ical.unescape_text(p.value), default_collation):
-            ok = False
-        if ok and param is not None:
+        conds = []
+        if text is not None:
+            conds.append(text_matches(text, ical.unescape_text(p.value), default_collation))
+        if param is not None:
             pn, pnd, pt = param
             vals = p.params.get(pn.upper())
             if pnd:
-                ok = vals is None
+                conds.append(vals is None)
             elif vals is None:
-                ok = False
+                conds.append(False)
             elif pt is not None:
-                ok = any(text_matches(pt, v, default_collation) for v in vals)
-        if ok:
+                conds.append(any(text_matches(pt, v, default_collation) for v in vals))
+            else:
+                conds.append(True)
+        # 10.5.1: the conditions are joined per property instance by the prop-filter's test attribute
+        if not conds or (all(conds) if ptest == "allof" else any(conds)):
             return True
     return False
 
